@@ -9,7 +9,7 @@ PROP = dict(
          'numElements, getValueRange over every region, IndexShifted for every shift in [-size,2*size]^3, SubBox for every '
          'clip box, three Accessor casts, MultiSlice with 1..5 slices.  (b) rapidcheck: size_t / vec3i extents with '
          'products up to 2^63 / 2^62 probed at the 8 corners, last indices, the 2^31/2^32/2^33/2^48 marks and random '
-         'points (oracle in unsigned __int128); for_each regions anywhere in the int range; set/get/clear/getValueRange/'
+         'points (oracle in unsigned __int128); for_each regions anywhere in the int range, and for_each over whole regions of 2^31, 2.2*10^9 (thorough: also 2^32, 3*10^9) cells compared visit by visit with an odometer in an optimised build; set/get/clear/getValueRange/'
          'adaptor histories against a shadow std::map; ActualArray3D over a sparse mmap of (2^31, 2^33] cells with alias '
          'partners at +-2^31 / +-2^32.  Non-trivial = extent whose sides all differ, or product >= 2^31 (for_each: '
          'non-empty region whose sides all differ); sweeps count (extent, index / configuration, cell) tuples of such '
@@ -23,5 +23,7 @@ PROP = dict(
         rc('C17_index', 'harness/C17_index.cpp', None, thorough=dict(scale=5, seeds=2)),
         rc('C17_array', 'harness/C17_array.cpp', None, thorough=dict(scale=5, seeds=2)),
         rc('C17_bigmem', 'harness/C17_bigmem.cpp', None, thorough=dict(scale=5, seeds=2)),
+        # for_each over regions of 2^31..2^32+ cells against an odometer: optimised, unsanitised (2 regions quick, 5 thorough)
+        rc('C17_foreach_big', 'harness/C17_foreach_big.cpp', None, san='', opt='-O2 -g', hang_s=900, thorough=dict(seeds=1)),
     ],
 )
